@@ -12,7 +12,7 @@ WIRE = {
                             "safeHeader": ("header", "x-safe"), "unsafeHeader": ("header", "x-unsafe"),
                             "dnlQuery": ("query", "dnlQuery"), "safeInt": ("query", "safeInt"), "body": ("body", None)}),
     "Names": ("names", {"type": ("path", 2), "fooBar": ("path", 3), "async": ("query", "async"), "camelCase": ("query", "camel-case"),
-                        "self": ("header", "x-self"), "snake_arg": ("query", "snake_arg"), "match": ("header", "x-match")}),
+                        "self": ("header", "x-self"), "snakeArg": ("query", "snake_arg"), "match": ("header", "x-match")}),
     "Headers": ("headers", {"hs": ("header", "x-str"), "ho": ("header", "x-opt"), "hu": ("header", "x-uuid"), "ha": ("header", "x-alias"),
                             "he": ("header", "x-enum"), "hd": ("header", "x-dbl")}),
     "Query": ("queryParams", {"qs": ("query", "qs"), "qo": ("query", "q-opt"), "ql": ("query", "ql"), "qset": ("query", "qset"),
@@ -30,7 +30,7 @@ WIRE["Path"] = ("pathParams", {"s": ("path", 2), "i": ("path", 4), "d": ("path",
                               "l": ("path", 9), "t": ("path", 10), "e": ("path", 11), "a": ("path", 12)})
 # declared PLAIN type of typed arguments, for near-valid "unparsable" values (text a lenient parser might let through)
 PLAIN_TYPE = {"Path": {"i": "int", "d": "double", "b": "bool", "u": "uuid", "r": "rid", "l": "safelong", "t": "datetime", "e": "enum"},
-              "Names": {"type": "int", "fooBar": "uuid", "async": "int", "camelCase": "int", "self": "int", "snake_arg": "int", "match": "bool"},
+              "Names": {"type": "int", "fooBar": "uuid", "async": "int", "camelCase": "int", "self": "int", "snakeArg": "int", "match": "bool"},
               "Headers": {"ho": "int", "hu": "uuid", "hd": "double", "he": "enum"}, "Regex": {"n": "int"},
               "Query": {"qo": "int", "ql": "double", "qe": "enum", "qa": "double", "qb": "bool"}}
 PLAIN_TYPE["NamesMacro"] = PLAIN_TYPE["Names"]
@@ -60,7 +60,7 @@ def base_args(ep, salt):
                 "dnlQuery": mk("dnlQuery"), "safeInt": 410000 + salt % 1000, "body": {"a": 420000 + salt % 1000}}
     if ep in ("Names", "NamesMacro"):
         return {"type": 510000 + salt % 1000, "fooBar": "6ba7b810-9dad-11d1-80b4-%012x" % (salt % 2**40), "async": 520000 + salt % 1000,
-                "camelCase": 530000 + salt % 1000, "self": 540000 + salt % 1000, "snake_arg": [550000 + salt % 1000, 551000 + salt % 1000],
+                "camelCase": 530000 + salt % 1000, "self": 540000 + salt % 1000, "snakeArg": [550000 + salt % 1000, 551000 + salt % 1000],
                 "match": True}
     if ep in ("Headers", "HeadersMacro"):
         return {"hs": mk("hs"), "ho": 610000 + salt % 1000, "hu": "6ba7b810-9dad-11d1-80b4-%012x" % (salt % 2**40), "ha": mk("ha"),
